@@ -12,8 +12,11 @@ import (
 type GraphCase struct {
 	N     int     `json:"n"`
 	Edges [][]int `json:"edges"`
-	// Exhaustive: enumerate every digraph with N nodes (Edges unused).
+	// Exhaustive: enumerate every digraph with N nodes (Edges unused); with Parts > 0 only the
+	// slice Part of Parts of the enumeration.
 	Exhaustive bool `json:"exhaustive,omitempty"`
+	Part       int  `json:"part,omitempty"`
+	Parts      int  `json:"parts,omitempty"`
 	// Batch > 0: Batch random digraphs from Seed (Edges unused).
 	Batch int   `json:"batch,omitempty"`
 	Seed  int64 `json:"seed,omitempty"`
@@ -119,7 +122,12 @@ func checkGraphCase(g *GraphCase) *CaseResult {
 	switch {
 	case g.Exhaustive:
 		total := uint64(1) << uint(g.N*g.N)
-		for bits := uint64(0); bits < total; bits++ {
+		lo, hi := uint64(0), total
+		if g.Parts > 0 {
+			lo = total / uint64(g.Parts) * uint64(g.Part)
+			hi = total / uint64(g.Parts) * uint64(g.Part+1)
+		}
+		for bits := lo; bits < hi; bits++ {
 			adj := adjFromBits(g.N, bits)
 			res.Stats["graph.checked"]++
 			if kahnAcyclic(g.N, adj) {
@@ -129,7 +137,7 @@ func checkGraphCase(g *GraphCase) *CaseResult {
 				report(g.N, adj, msg)
 			}
 		}
-		res.Shape = hashStrings([]string{"exh", fmt.Sprint(g.N)})
+		res.Shape = hashStrings([]string{"exh", fmt.Sprint(g.N, g.Part, g.Parts)})
 	case g.Batch > 0:
 		r := rand.New(rand.NewSource(g.Seed))
 		for i := 0; i < g.Batch; i++ {
